@@ -683,6 +683,8 @@ def probe(ctx):
                                      ('Isotropic', -1 / (d * d - 1), 1 / (d + 1), dict(ree=S.get_Isotropic_ree, eof=S.get_Isotropic_eof, gme=S.get_Isotropic_GME))]:
                 pts = [lo, float(np.nextafter(lo, 2)), (lo + thr) / 2, 0.0, thr - 1e-3, float(np.nextafter(thr, -2)), thr, float(np.nextafter(thr, 2)), thr + 1e-3, (thr + 1) / 2, float(np.nextafter(1, -2)), 1.0]
                 for mname, f in fs.items():
+                    if mname == 'ree' and ctx.quick() and d > 8 and d not in (13, 20):
+                        continue      # (each REE call diagonalises a d^2 x d^2 matrix; all d in the thorough tier)
                     sc = []
                     for a in pts:
                         v = guarded(lambda: float(f(d, a)))
@@ -856,7 +858,7 @@ def probe(ctx):
             ctx.probe_ok(('upb-unknown', kind))
 
     # round 6: the remaining public closed forms / measurement sets, against independent oracles
-    for n in range(1, 11):
+    for n in range(1, 8 if ctx.quick() else 10):     # (Dicke builds all n! permutations: n = 10 costs seconds per call)
         for k in range(0, n + 1):
             def f():
                 v = float(S.get_qubit_dicke_state_GME(n, k))
